@@ -1,6 +1,8 @@
 import BadgerModel.Watermark
 import BadgerProofs.Lemmas.Watermark
 import BadgerProofs.Lemmas.WatermarkInv
+import BadgerModel.Oracle
+import BadgerProofs.Lemmas.Oracle
 /-!
 # C34 — watermark part: `y.WaterMark.process` never reports an unfinished index as done and never
 strands a waiter.
@@ -181,5 +183,60 @@ example : (WM.init.runW [.begin 3, .wait 3 1, .begin 5, .done 5, .done 3]).2 = [
 example : usesRangePath 0 5 1 = false ∧ usesRangePath 0 1 1 = true := by decide
 example : (WM.init.runW [.begin 1, .wait 1 7, .done 1]).2 = [⟨7, 1⟩] := by decide
 example : (WM.init.run [.begin 3, .begin 5, .done 5]).pending.val 3 > 0 := by decide
+
+
+/-! ## Oracle level (`BadgerModel/Oracle.lean`): a transaction never starts at a timestamp while a
+commit at or below it is still being applied
+
+`Reach false d n s`: all reachable states of the oracle transition system in normal mode, any
+number of transactions, any interleaving, the two `process` goroutines lagging arbitrarily. -/
+
+/-- **`readTs` sees only applied commits.** In every reachable state, a transaction whose
+    `NewTransaction` has returned (phase `active`, later `closing`/`closed`) with read timestamp `r`
+    satisfies: every commit timestamp `≤ r` that was ever handed out has had `doneCommit` called —
+    which the write pipeline does only after the memtable write. (All such timestamps were handed
+    out before the transaction began: later ones are `> r`, `C03_ts_unique_increasing`.) -/
+theorem C34_readTs_sees_applied {d : Bool} {n : Nat} {s : Sys} (h : Reach false d n s) (tid : Nat)
+    (x : TxnSt) (hx : s.txns[tid]? = some x)
+    (hret : x.phase = .active ∨ x.phase = .closing ∨ x.phase = .closed) :
+    ∀ e ∈ s.hist, e.ts ≤ x.t.readTs → e.ts ∈ s.doneCommits :=
+  h.inv.applied x (List.mem_of_getElem? hx) hret
+
+/-- The guard itself: whenever `txnMark.DoneUntil() ≥ r` holds *now* (the `WaitForMark` fast path),
+    every handed-out commit timestamp `≤ r` has been reported done; and `WaitForMark`'s wake-up is
+    only sent with `DoneUntil() ≥ r` (`C34_waiters_released`). -/
+theorem C34_doneUntil_means_applied {d : Bool} {n : Nat} {s : Sys} (h : Reach false d n s) (r : Nat)
+    (hr : r ≤ s.o.txnMark.doneUntil) : ∀ e ∈ s.hist, e.ts ≤ r → e.ts ∈ s.doneCommits :=
+  h.inv.applied_of_doneUntil r hr
+
+/-- Both watermarks of the oracle are used within the discipline of `C34_no_assert` /
+    `C34_not_ahead_strict` / `C34_progress`: the marks sent to `readMark` are matched and
+    non-decreasing, those sent to `txnMark` matched and strictly increasing; neither `process`
+    goroutine (nor `newCommitTs`/`cleanup`) ever asserts. -/
+theorem C34_oracle_discipline {d : Bool} {n : Nat} {s : Sys} (h : Reach false d n s) :
+    marksOK false (Ghost.opened n) s.rmSent ∧ marksOK true (Ghost.opened n) s.tmSent ∧
+    s.o.readMark.virt = (WM.opened n).run s.rmSent ∧ s.o.txnMark.virt = (WM.opened n).run s.tmSent ∧
+    s.crashed = false :=
+  ⟨h.inv.rmOK, h.inv.tmOK, h.inv.rmTracks.virt, h.inv.tmTracks.virt, h.inv.live⟩
+
+/-- `DoneUntil()` read now never exceeds what it will be once the channel is drained (the process
+    goroutine only lags), for both watermarks. -/
+theorem C34_doneUntil_lags {d : Bool} {n : Nat} {s : Sys} (h : Reach false d n s) :
+    s.o.readMark.doneUntil ≤ s.o.readMark.virt.doneUntil ∧
+    s.o.txnMark.doneUntil ≤ s.o.txnMark.virt.doneUntil := by
+  have hI := h.inv
+  rw [hI.rmTracks.virt, hI.tmTracks.virt]
+  exact ⟨hI.rmTracks.le_virt, hI.tmTracks.le_virt⟩
+
+-- non-vacuity: a reader that starts while commit 1 is in flight parks, and is released by doneCommit
+example : (((Sys.opened false true 0).runLabels
+    [.procTxnMark, .begin true, .waitCheck 0, .write 0 1, .commit 0, .begin false, .waitCheck 1,
+     .procTxnMark, .procTxnMark]).map (fun s => (s.txns.map (·.phase), s.o.txnMark.doneUntil))) =
+    some ([.closed, .parked], 0) := by decide
+example : (((Sys.opened false true 0).runLabels
+    [.procTxnMark, .begin true, .waitCheck 0, .write 0 1, .commit 0, .begin false, .waitCheck 1,
+     .procTxnMark, .procTxnMark, .doneCommit 1, .procTxnMark]).map
+      (fun s => (s.txns.map (·.phase), s.o.txnMark.doneUntil, s.doneCommits))) =
+    some ([.closed, .active], 1, [1]) := by decide
 
 end Badger
